@@ -260,7 +260,8 @@ pub fn run_dyn(specs: &[(String, Vec<String>)], queue: &str, vars: &[(String, St
             _ => vec![],
         };
         e.sort();
-        line.push_str(&format!(" | STATE {} | NAMES {}", if e.is_empty() { "-".to_string() } else { e.join(",") }, enc_list(&c.commands.get_all_command_names())));
+        let dangling = c.commands.aliases.iter().filter(|(_, m)| !c.commands.commands.contains_key(*m)).count();
+        line.push_str(&format!(" | STATE {} | NAMES {} | DANG {}", if e.is_empty() { "-".to_string() } else { e.join(",") }, enc_list(&c.commands.get_all_command_names()), dangling));
     }
     line
 }
